@@ -60,8 +60,12 @@ func quotes(ss []string) string {
 }
 
 func sortedQuotes(ss []string) string {
-	sort.Strings(ss)
-	return quotes(ss)
+	// Do not sort the argument in place. It may be a slice shared with others such as a value of
+	// the AllWebhookTypes table or the config variables in a config file
+	sorted := make([]string, len(ss))
+	copy(sorted, ss)
+	sort.Strings(sorted)
+	return quotes(sorted)
 }
 
 func quotesAll(sss ...[]string) string {
